@@ -269,6 +269,21 @@ class BlockParser:
 		return index, entries
 
 	@classmethod
+	def _block_begin(cls, text: str, brackets: str, entry: Entry) -> int:
+		"""ブロックの開き括弧の位置を取得
+
+		Args:
+			text: 解析対象の文字列
+			brackets: 括弧のペア
+			entry: ブロックのエントリー
+		Returns:
+			開き括弧の位置
+		Note:
+			ブロックの名前に含まれる対象外のブロック・文字列(`std::function<void(int)>(a)`, `f["("](a)`)内の括弧は読み飛ばす
+		"""
+		return cls._analyze_entry(text, brackets, '', entry.begin)[2]
+
+	@classmethod
 	def parse_bracket(cls, text: str, brackets: str = '()') -> list[str]:
 		"""文字列内の括弧で囲われた入れ子構造のブロックを展開する
 
@@ -282,7 +297,7 @@ class BlockParser:
 		blocks = []
 		for entry in [root, *root.unders()]:
 			if entry.kind == Kinds.Block:
-				block_begin = text.find(brackets[0], entry.begin)
+				block_begin = cls._block_begin(text, brackets, entry)
 				blocks.append(text[block_begin:entry.end])
 
 		return blocks
@@ -315,7 +330,7 @@ class BlockParser:
 			ブロックフォーマッター
 		"""
 		def to_formatter(entry: Entry) -> BlockFormatter:
-			end = text.find(brackets[0], entry.begin)
+			end = cls._block_begin(text, brackets, entry)
 			formatter = BlockFormatter(text[entry.begin:end], brackets, delimiter)
 			for in_entry in entry.entries:
 				if in_entry.kind == Kinds.Block:
